@@ -55,6 +55,7 @@ var propertyConfigs = map[string]*propertyConfig{
 		ID: "C15", Packages: []string{"./..."}, Level: "proof",
 		Explain: "Refusal clause of the property: Combiner.GenAdditiveShare under the precondition len(activesPoints) < threshold returns a non-nil error on every path (and no path with fewer than t actives reaches the combination loop).  " +
 			"Plus, on the typed-AST engine: ring.Ring.NewRNSScalarFromUInt64 (the RNS form of a party's public point, from which the Lagrange coefficients are built) returns exactly v mod q_i for every modulus of the level and every uint64 v; the RNS scalar operations the Lagrange coefficient is assembled from (MFormRNSScalar, NegRNSScalar, SubRNSScalar, MulRNSScalar) compute, modulus by modulus, the Montgomery form, q - x, the reduced difference and the lazy Montgomery product of their inputs, for same-or-disjoint operands.  " +
+			"Share generation: ring.Ring.EvalPolyScalar (the Horner evaluation of the secret polynomial at a party's public point) is under a safety contract for every length (indices in range, callee preconditions) and, as a BOUNDED instance (three coefficients, loop unwound; unsigned machine products wrap modulo 2^64), computes p1[0] + p1[1]*x + p1[2]*x^2 in the ring.  " +
 			"NewCombiner (abstract contract, bounded instance: one Q modulus, no P, at most two other parties) owes Combiner.lagrangeCoeff its precondition: the two public points are distinct modulo every modulus (ghost predicate distinctmod); it does not establish it - recorded as a known finding.",
 		Assumptions: append(append([]string{}, engineBAssumptions...), "ring.ModexpMontgomery is verified against pow: the result is the Montgomery representative of (value of x)^e, where the value of a representative t is t*winv with 2^64*winv = 1 (mod q) (loop invariant; inductive power lemmas checked by Lean); Ring.Inverse applies it with exponent q_i - 2 to every residue; that b*b^(q-2) = 1 (mod q) for a prime q not dividing b is the Lean theorem fermat_inverse, a lemma over that contract",
 			"NOT decided: that lagrangeCoeff composes these operations in the right order (ASSUMED contract carrying its precondition); that the shares of any t parties sum to the secret; order independence"),
